@@ -1,6 +1,7 @@
 import Mutagen.Proofs.Reconcile
 import Mutagen.Proofs.Reach
 import Mutagen.Proofs.History
+import Mutagen.Proofs.HistoryGeneral
 /-!
 # C01 — two-way-safe synchronization never loses a modification
 
@@ -191,11 +192,46 @@ theorem twoWaySafe_history (s₀ : HState) (pre : List HStep) (edits : List HSte
   rw [e1, e2, e3]
   exact modified_since_sync_survives (hrun .twoWaySafe s₀ pre) hal hbe hpα hpβ edits he q hq h1 h2
 
--- TODO theorem twoWaySafe_history_general (DESIGN §8 C01 (4), arbitrary gaps): allow further cycles
---   between the cycle that last synchronized `q` and the cycle under consideration (cycles in which `q`
---   lies under a conflict root leave the ancestor's record at `q` unchanged or drop it), and discharge the
---   validity hypotheses on the intermediate states from "every edit installs a valid phantom-free tree"
---   (needs: exact application of a plan preserves `Valid` and `onoPhantom` of an endpoint tree — the
---   path-wise validity machinery of `Proofs/AncestorUpdate` exists for synchronizable trees only).
+/-- **A cycle in which a path lies under a conflict keeps or drops the
+ancestor's record there** (every mode, any trees): if `q` is at or below the
+root of a conflict of the cycle's plan, the ancestor after the cycle records at
+`q` what it recorded before, or nothing. -/
+theorem conflict_cycle_keeps_or_drops_record (mode : Mode) (s : HState) (q : Path)
+    (h : ∃ c ∈ (Reconcile s.anc s.alpha s.beta mode).conflicts, c.root <+: q) :
+    pget (cycleStep mode s).anc q = pget s.anc q ∨ pget (cycleStep mode s).anc q = none :=
+  cycle_under_conflict_anc mode s q h
+
+/-- Every state of a history whose edits install valid phantom-free trees
+(`ValidSteps`) and whose cycles are fully applied has valid phantom-free
+endpoints (exact application of a plan preserves endpoint validity). -/
+theorem history_endpoints_valid (mode : Mode) (s₀ : HState) (h₀ : s₀.EndpointsValid) (steps : List HStep)
+    (hs : ValidSteps steps) : (hrun mode s₀ steps).EndpointsValid :=
+  hrun_endpointsValid mode steps s₀ h₀ hs
+
+/-- **Content created or modified since the last synchronization of its path is
+never deleted or overwritten — arbitrary gaps** (two-way-safe). Start from any
+state with valid phantom-free endpoints and run any history `pre` of valid
+edits and fully applied cycles. Let the next cycle leave the path `q`
+synchronized (outside its conflicts and outside unsynchronizable content; then
+both endpoints and the ancestor hold the same entry at `q` — first conjunct).
+Let any further edits and cycles `mid` follow during which `q` is not
+synchronized again because it lies under a conflict of every such cycle. Then
+the next cycle leaves untouched every entry at `q` that exists and differs from
+what `q` held when it was last synchronized. -/
+theorem twoWaySafe_history_general (s₀ : HState) (h₀ : s₀.EndpointsValid) (pre mid : List HStep)
+    (hpre : ValidSteps pre) (q : Path)
+    (hq : ∀ c ∈ (Reconcile (hrun .twoWaySafe s₀ pre).anc (hrun .twoWaySafe s₀ pre).alpha
+        (hrun .twoWaySafe s₀ pre).beta .twoWaySafe).conflicts, ¬ c.root <+: q)
+    (h1 : NoUnsyncAlong (cycleStep .twoWaySafe (hrun .twoWaySafe s₀ pre)).alpha q)
+    (h2 : NoUnsyncAlong (cycleStep .twoWaySafe (hrun .twoWaySafe s₀ pre)).beta q)
+    (hmid : UnderConflictInCycles .twoWaySafe q (cycleStep .twoWaySafe (hrun .twoWaySafe s₀ pre)) mid) :
+    let s₁ := cycleStep .twoWaySafe (hrun .twoWaySafe s₀ pre)
+    let t := hrun .twoWaySafe s₁ mid
+    (pget s₁.alpha q = pget s₁.anc q ∧ pget s₁.beta q = pget s₁.anc q) ∧
+    (pget t.alpha q ≠ none → pget t.alpha q ≠ pget s₁.alpha q →
+      pget (cycleStep .twoWaySafe t).alpha q = pget t.alpha q) ∧
+    (pget t.beta q ≠ none → pget t.beta q ≠ pget s₁.beta q →
+      pget (cycleStep .twoWaySafe t).beta q = pget t.beta q) :=
+  history_general s₀ h₀ pre mid hpre q hq h1 h2 hmid
 
 end Mutagen.Properties.C01
